@@ -10,7 +10,8 @@ xtuml.ModelLoader) + a generated OAL program + keyword arguments, run through
               an error (unset variable, type error, deleted instance used, multiplicity-violating relate, unrelate of
               unrelated instances ...) or exhausts its fuel is dropped and counted, never run.  ONE error is compared
               instead: where `Spec` ends in "division by zero" (`/` or `%` with a zero divisor) the interpreter has to
-              end in ZeroDivisionError (and not in a value).  Without the Lean driver there is no reference: `generate`
+              end in an exception escaping run_function (ZeroDivisionError as it is; which exception is not part of
+              the property) and not in a value.  Without the Lean driver there is no reference: `generate`
               raises (a harness error), it never yields a case without an expectation.
   D = K       the property is the equivalence with the reference: return value and final canonical population
               (instances per class in creation order with attribute values, both navigation directions of every
@@ -28,7 +29,7 @@ RULE = ('type-directed random OAL programs (quick: 3000 programs, <= 25 generate
         'initial populations (0-6 instances per class, random links, loaded as SQL text) with random keyword arguments; every '
         '8th program belongs to the arithmetic family (half of its integer literals beyond 2**53, up to 2**70, both signs; '
         'attribute values and parameters likewise; `%` with dividends and divisors of either sign; 4 % of its divisors are zero, '
-        'where the expected outcome is ZeroDivisionError); elsewhere 15 % of the `%` sites take operands of either sign; programs on which the reference semantics reports an error or runs out of '
+        'where the expected outcome is an error, not a value); elsewhere 15 % of the `%` sites take operands of either sign; programs on which the reference semantics reports an error or runs out of '
         'fuel are outside the domain and dropped (counted in the distribution; a run in which any program ran out of fuel is flagged); a case is non-trivial when the program '
         'executed a loop body or a where clause with mixed outcomes and changed the population or returned a value; '
         'distinct = distinct (program text, population)')
@@ -184,7 +185,7 @@ def _spec_val(x, rank):
 def canon_spec(ans):
     """the driver's `(ok ret (state (nextId n) (pop ...) (links ...)))` in the form of `canon_impl`"""
     if isinstance(ans, list) and len(ans) == 2 and ans[0] == 'error' and ans[1] == DIV_BY_ZERO:
-        return ['raised', 'ZeroDivisionError']
+        return ['raised', 'error']
     if not isinstance(ans, list) or not ans or ans[0] != 'ok':
         return ['not-ok', G_to_plain(ans)]
     ret, state = ans[1], ans[2]
@@ -246,7 +247,7 @@ def attach_expectations(ctx, cases):
             yield c
         elif isinstance(ans, list) and len(ans) == 2 and ans[0] == 'error' and ans[1] == DIV_BY_ZERO:
             c['expect'] = canon_spec(ans)
-            ctx.count('expected_zero_division_error')
+            ctx.count('expected_division_by_zero_error')
             yield c
         elif isinstance(ans, list) and ans and ans[0] == 'error':
             ctx.count('dropped_outside_domain')
@@ -332,7 +333,9 @@ def run_impl(case):
     # convention), so that it can be told from every other difference
     negmod = bool(tr['negmod'])
     if raised is not None:
-        obs = ['raised', raised.split(':')[0]]
+        # where the language defines an error (a zero divisor) any exception escaping run_function is that error: the
+        # property says nothing about which exception it is
+        obs = ['raised', 'error' if exp[0] == 'raised' else raised.split(':')[0]]
         if obs != exp:
             fails.append({'sig': 'exception:' + raised.split(':')[0],
                           'what': 'the interpreter raised %s; the language defines the result %r\nprogram:\n%s\nkwargs: %r\npopulation: %r' % (
@@ -380,7 +383,9 @@ def run_impl(case):
     if negmod:
         stats['mod_with_negative_operand'] = 1
     if exp[0] == 'raised':
-        stats['ends_in_zero_division_error'] = 1
+        stats['ends_in_division_by_zero_error'] = 1
+        if raised is not None:
+            stats['division_by_zero_raises_' + raised.split(':')[0]] = 1
     reached = 0
     mixed_where = False
     for (kind, _), outs in tr['outcomes'].items():
